@@ -72,11 +72,12 @@ Theorem C11_area : forall c fs k a a' lm, ~ a < qfrac 1 1000 -> ~ a' < qfrac 1 1
   match energy_performance c fs k a' lm with Ok ep => Ok (set_area a ep) | Err e => Err e end.
 Proof. exact C04_area_only. Qed.
 
-(** why the domain hypothesis is there: below it the absolute guard of balance.rs:329 bites *)
+(** below the former absolute guard of balance.rs (production of a step under 1e-3 kWh; removed by fix c3bd83b) the
+    share of a source is the same ratio: the produced energy used scales like everything else *)
 Example C11_guard_note :
   let c1 := mkCol 0 0 0 0 0 (qz 1) 0 0 (qfrac 1 2000) 0 0 0 in
-  used_src false false c1 EL_INSITU = 0 /\ used_src false false (cscale (qz 1000) c1) EL_INSITU <> 0.
-Proof. split; [apply Qc_is_canon; vm_compute; reflexivity|]. intro H. apply (f_equal this) in H. vm_compute in H. discriminate. Qed.
+  used_src false false c1 EL_INSITU = qfrac 1 2000 /\ used_src false false (cscale (qz 1000) c1) EL_INSITU = qz 1000 * qfrac 1 2000.
+Proof. split; apply Qc_is_canon; vm_compute; reflexivity. Qed.
 
 Print Assumptions C11_energy.
 Print Assumptions C11_steps_scale.
